@@ -111,6 +111,11 @@ def gen_cfg(rng, prop, tier):
         length = rng.randint(13, 40)
     else:
         length = rng.randint(1, 12)
+    big = prop in ("C01", "C02", "C03", "C04", "C16") and rng.random() < (0.02 if thorough else 0.01)
+    if big:
+        # a few large universes: wide stars, deep chains, big random forests
+        n_nodes = rng.randint(40, 150 if prop == "C04" else 300)
+        length = rng.randint(1, 5)
     classes = []
     targets = []
     for i in range(n_nodes):
@@ -125,7 +130,8 @@ def gen_cfg(rng, prop, tier):
         "menu": list(menu),
         "classes": classes,
         "targets": targets,
-        "init_parents": gen_init_forest(rng, n_nodes),
+        "init_parents": gen_init_forest(rng, n_nodes, big),
+        "big": big,
         "L": length,
         "obs": 1,
         "observe_hooks": False,
@@ -182,12 +188,16 @@ def gen_cfg(rng, prop, tier):
     return cfg
 
 
-def gen_init_forest(rng, n):
+def gen_init_forest(rng, n, big=False):
     """Initial shape of the universe: histories start from isolated roots in 40%
     of the runs and from a forest of a drawn style otherwise (deep chains, stars,
     binary trees, random forests), so that depth >= 3 states are common even in
     short histories."""
     style = wchoice(rng, (("flat", 40), ("random", 30), ("chain", 10), ("star", 5), ("binary", 10), ("two-chains", 5)))
+    if big:
+        style = rng.choice(("random", "chain", "star", "binary", "two-chains"))
+        if style in ("chain", "two-chains") and n > 120:
+            style = "random"  # keep depth well below Python's recursion limit (recursive attributes)
     par = [None] * n
     if style == "flat":
         return par
@@ -918,7 +928,7 @@ def sweep(cfg, res, rng, tier):
     prop = cfg["prop"]
     if prop not in ("C01", "C03", "C16", "C18"):
         return
-    if cfg["profile"] != "none" or len(res.ops) > (10 if tier == "thorough" else 6):
+    if cfg["profile"] != "none" or cfg.get("big") or len(res.ops) > (10 if tier == "thorough" else 6):
         return
     hooks = cfg["hooks"]
     excs = cfg["excs"] if tier == "thorough" else cfg["excs"][:1] + cfg["excs"][2:]
